@@ -90,6 +90,9 @@ def model_apply(v, op):
         return v, ("none",)
     if kind == "clear":
         return View([], []), ("none",)
+    if kind == "refused":
+        # an operation that cannot be carried out (absent object, unknown key, position out of range)
+        return v, ("raise",)
     if kind == "update":
         for k, o in op[1]:
             v, _ = model_apply(v, ("setkey", k, o))
@@ -171,9 +174,12 @@ def mutator_contract(style, n, op_name, op_builder, watched, stale=0, ghosts=0, 
         return z3.BoolVal(r) if isinstance(r, bool) else r
 
     def post(I, info, st, oc):
-        if isinstance(oc, Raise):
-            return [("style-consistent operation does not raise", z3.BoolVal(False))]
         want, res = model_apply(info["v0"], info["mop"])
+        if res[0] == "raise":
+            if not isinstance(oc, Raise):
+                return [("an operation that cannot be carried out raises", z3.BoolVal(False))]
+        elif isinstance(oc, Raise):
+            return [("style-consistent operation does not raise", z3.BoolVal(False))]
         out = []
         ph = st.heap[info["p"].oid].fields
         pits = st.heap[info["proxy"].oid].fields.get("$items")
@@ -201,6 +207,9 @@ def mutator_contract(style, n, op_name, op_builder, watched, stale=0, ghosts=0, 
         elif res[0] == "none":
             out.append(("returns None", z3.BoolVal(isinstance(oc, Conc) and oc.py is None)))
         notes = st.ghost.get("notified", [])
+        if res[0] == "raise":
+            out.append(("a mutation that did not happen is not announced", z3.BoolVal(len(notes) == 0)))
+            return out
         out.append(("objects watchers notified exactly once per mutation (iff registered)",
                     z3.BoolVal(len(notes) == (1 if watched else 0))))
         if watched and len(notes) == 1:
@@ -289,6 +298,18 @@ def contracts():
                 C.append(mutator_contract("dict", n, "[k%d]=" % i, lambda o, k, x, i=i: ("__setitem__", [Conc(k[i]), x[0]], ("setkey", k[i], x[0])), False, unnamed_at=j))
                 C.append(mutator_contract("dict", n, "pop(k%d)" % i, lambda o, k, x, i=i: ("pop", [Conc(k[i])], ("popkey", k[i])), False, unnamed_at=j))
             C.append(mutator_contract("dict", n, "[newkey]=", lambda o, k, x: ("__setitem__", [Conc("knew"), x[0]], ("setkey", "knew", x[0])), False, unnamed_at=j))
+    # positions counted from the end
+    for n in (1, 2, 3):
+        for watched in ((False, True) if n < 3 else (False,)):
+            for i in range(1, n + 1):
+                C.append(mutator_contract("list", n, "insert(-%d)" % i, lambda o, k, x, i=i: ("insert", [Conc(-i), x[0]], ("insert", -i, x[0])), watched))
+    # operations that cannot be carried out: nothing changes, nothing is announced
+    for n in (0, 1, 2):
+        C.append(mutator_contract("list", n, "remove(absent object)", lambda o, k, x: ("remove", [x[0]], ("refused",)), True))
+        C.append(mutator_contract("list", n, "pop(%d) out of range" % n, lambda o, k, x, n=n: ("pop", [Conc(n)], ("refused",)), True))
+    for n in (1, 2):
+        C.append(mutator_contract("dict", n, "pop(unknown key)", lambda o, k, x: ("pop", [Conc("nokey")], ("refused",)), True))
+        C.append(mutator_contract("dict", n, "remove(absent object)", lambda o, k, x: ("remove", [x[0]], ("refused",)), True))
     # dict-style update(...) on dict-declared objects: pairs in order, then keyword items
     for n in (1, 2):
         for watched in (False, True):
